@@ -161,6 +161,76 @@ CLAIMED["C07"] = dict(
   note="Store level only: the gRPC replicator of pkg/replication and the pkg/database wrappers (ExportTxByID validations, replica state bookkeeping) are emulated by the driver.",
   technique="TLC exhaustive model checking of the replication relation + TLC trace validation of real primary/replica executions")
 
+CLAIMED["C04"] = dict(
+  category="model_checking",
+  text="spec/Index.tla: the committed log as entry sets, per index (plain, prefixed, mapped injective) an index time and a multi-version map, IndexBulk transcribed from "
+       "indexer.indexSince (bulks, mapping, injective tombstones, IncreaseTs), reads with defined results (Get, GetBetween, GetWithPrefix, History with revisions, key readers). "
+       "TLC checks IndexAgrees exhaustively on small configurations for the design and finds the counterexamples of the three transcribed code variants (repaired by fix: commits); "
+       "simulated behaviours (write histories, maintenance points, reads) are replayed on real stores under index configuration classes (MaxBulkSize 1..8, thresholds, node/cache "
+       "sizes, 1-3 indexes with mappers) with real flush/compact/reopen; a concurrent driver logs reads with the indexing progress observed before/after and spec/TraceIndex.tla "
+       "accepts iff each read equals the reference value at some index time in between.",
+  design_ref="DESIGN.md §4 C04, docs/C04.md",
+  note="Store level only (pkg/database Get/Scan/History/Count not driven); exhaustive bounds 2-4 txs x 1-2 entries.",
+  technique="TLC model checking + replay of TLC behaviours on real stores + TLC trace validation of concurrent reads")
+CLAIMED["C11"] = dict(
+  category="exploration",
+  text="spec/SQLQuery.tla: abstract tables, DML histories, a query fragment (comparisons, ranges, IN, LIKE, IS NULL, AND/OR/NOT, ORDER BY, LIMIT/OFFSET, DISTINCT, GROUP BY with "
+       "aggregates, inner/left joins, IN-subquery) with its denotation in the engine's dialect, and the partition identity Q = Q AND P + Q AND NOT P + Q AND P IS NULL as a fact "
+       "TLC decides. TLC enumerates (schema variant x history x query) samples covering every operator and plan class; harness/cmd/c11 builds twin tables differing only in their "
+       "indexes and runs every query through every access path (forced index, pk scan, non-sargable rewrites, derived tables, hash vs nested-loop joins, hash vs ordered grouping) "
+       "inside the writing transaction, after commit and after reopen; all answers must equal the denotation. The reader chains really used are recorded (vacuity check).",
+  design_ref="DESIGN.md §4 C11, docs/C11.md",
+  note="Model-based test generation: the verdict is only as wide as the enumerated fragment (2 tables, <= 4 rows).",
+  technique="TLA+ denotational query semantics + TLC enumeration, replay through every physical plan on the real engine")
+CLAIMED["C12"] = dict(
+  category="model_checking",
+  text="spec/SQLTx.tla: tables with PK, unique index, NOT NULL, CHECK, max length, auto-increment; sessions with autocommit statements or multi-statement transactions over a "
+       "fixed snapshot with own-write overlay and MVCC read-set; statement-level atomicity. TLC checks ConstraintsHold / FailedStatementNoEffect exhaustively (2-3 sessions x 3 "
+       "statements, DDL racing) for the design; each transcribed code quirk yields a counterexample that is replayed; simulated behaviours are executed deterministically on the real "
+       "sql.Engine (explicit SQLTx sessions) comparing outcome classes, affected rows, every SELECT and the committed table after every commit; free concurrent sessions are "
+       "validated by spec/TraceSQLTx.tla. A deviation is attributed by replaying it in the model under each quirk; unexplained deviations are violations.",
+  design_ref="DESIGN.md §4 C12, docs/C12.md",
+  note="One table; ALTER TABLE and multi-table transactions not modelled.",
+  technique="TLC model checking + deterministic replay of statement interleavings on the real engine + TLC trace validation")
+CLAIMED["C13"] = dict(
+  category="model_checking",
+  text="Same module as C12 (spec/SQLTx.tla) with savepoints (SAVEPOINT / ROLLBACK TO / RELEASE, nesting), COMMIT / ROLLBACK / session close, read-only sessions; invariants "
+       "AllOrNothing, RollbackToUndoesExactlySuffix, OwnWritesVisible, NoDirtyReads, CountsMatchApplied checked exhaustively for the design; behaviours replayed on the real engine "
+       "and through the PostgreSQL wire front-end of an in-process server (simple-query protocol); concurrent sessions validated by spec/TraceSQLTx.tla.",
+  design_ref="DESIGN.md §4 C13, docs/C13.md",
+  note="gRPC session path (NewTx/TxSQLExec) not driven; extended-query wire path not modelled.",
+  technique="TLC model checking + deterministic replay on the real engine and the pgsql front-end + TLC trace validation")
+CLAIMED["C14"] = dict(
+  category="model_checking",
+  text="spec/Truncation.tla: value placement by committers before they get their id, chunks, TruncateUptoTx transcribed in steps (back walk, forward walk, discards), concurrent "
+       "truncations, ExportTx with its lock as a variable, restart; invariants ReadableFromCut, HeadersIntact, ExportTerminates, NoLockCycle, Idempotent checked exhaustively (up to "
+       "5.2M states thorough) for the design and for the code as transcribed; counterexamples and simulated behaviours are replayed as schedules on a real store, forcing the "
+       "placement order with the ValuesAppended gate hook; after each schedule and for every cut point: real TruncateUptoTx, ReadTx+ReadValue, Get, ExportTx under a liveness "
+       "deadline, headers and proofs, reopen; plus pkg/database level truncation with SQL catalog and a document collection, and free concurrent runs.",
+  design_ref="DESIGN.md §4 C14, docs/C14.md",
+  note="A real TruncateUptoTx runs as one step in replays (interleavings inside it are explored by TLC and by chance in the free runs only).",
+  technique="TLC model checking + gated replay of TLC schedules on the real store")
+CLAIMED["C17"] = dict(
+  category="model_checking",
+  text="spec/ByteLog.tla (abstract byte array) and spec/Appendable.tla (singleapp/multiapp state machine: buffer window, file offset, chunk files possibly longer than the logical "
+       "size, rotation, handle cache, DiscardUpto, copy, reopen) with refinement invariants ReadsAgree, AppendReturnsPrevSize, RewindDiscardsSuffix, ReopenSame, DiscardKeepsSuffix; "
+       "state graphs explored to their fixpoint for the design and for the code as transcribed (whose counterexamples are replayed); simulated behaviours are stepped through real "
+       "single-file and multi-file appendables on disk (tiny files and buffers, compression formats, 1-2 open files, retryable sync, preallocation) comparing size, full read-back "
+       "and metadata after every step; concurrent readers during appends are validated by spec/TraceAppendable.tla.",
+  design_ref="DESIGN.md §4 C17, docs/C17.md",
+  note="fsync failure injection and crash are out of scope here (crash is C03).",
+  technique="TLC model checking of the refinement + replay on real appendables + TLC trace validation of concurrent reads")
+CLAIMED["C19"] = dict(
+  category="exploration",
+  text="spec/Docs.tla: a collection as typed fields, indexes (unique or not) and documents as id -> revisions over missing/null/values; inserts, replace/delete by query, "
+       "add/remove field, create/delete index; GetById, Search (AND groups OR-ed, all comparison operators, ordering, paging), Count, Audit with defined results; invariants "
+       "Faithful, IndexIndependent, UniqueHolds, AuditComplete checked exhaustively at small constants; simulated behaviours replayed on the real document.Engine and through "
+       "pkg/database with twin collections (with/without indexes), four concretisation classes (plain, unicode, numeric edge, newline), proofs verified with "
+       "pkg/verification.VerifyDocument (altered documents must not verify), close/reopen.",
+  design_ref="DESIGN.md §4 C19, docs/C19.md",
+  note="One writer; gRPC layer and paging sessions not driven.",
+  technique="TLA+ state machine + TLC enumeration/simulation, replay on the real document engine")
+
 REASONS = {}
 
 
